@@ -233,3 +233,29 @@ Example C09_boundary_fits :
   | _ => False
   end.
 Proof. split; [reflexivity|vm_compute; reflexivity]. Qed.
+
+(* ---------- PacketHeader.to_bytes REGENERATED from mpgameserver/connection.py on every run (tools/py2v_bytes.py,
+   Gen/HdrKernels.v): the translated source text is the header encoder the theorems above are about *)
+From Gen Require HdrKernels.
+From Proofs Require HdrKernelsP.
+
+(* PacketHeader.to_bytes as written in the source (direction magic chosen by isServer, struct.pack(">4sLHH") +
+   struct.pack(">BHBL")) = Wire.encode_header, for EVERY header record: the same 20 bytes when every field is in
+   range, struct.error otherwise; the PacketType members are exactly the model's packet type codes (the values
+   PacketType(n) accepts in from_bytes) and the two direction magics are the model's *)
+Theorem C09_kernel_header_bytes :
+  (forall h, HdrKernels.gen_PacketHeader_to_bytes (if h_to_server h then 0 else 1) (h_ctime h) (h_seq h) (h_ack h)
+               (ptype_code (h_type h)) (h_len h) (h_count h) (h_ackbits h) = encode_header h) /\
+  (HdrKernels.gen_PacketIdentifier_TO_SERVER = MAGIC_TO_SERVER /\ HdrKernels.gen_PacketIdentifier_TO_CLIENT = MAGIC_TO_CLIENT) /\
+  (forall z, In z HdrKernels.gen_PacketType_members <-> exists t, ptype_of_code z = Some t).
+Proof.
+  split; [exact HdrKernelsP.gen_to_bytes_spec|]. split; [exact HdrKernelsP.gen_magics|].
+  exact (proj2 HdrKernelsP.gen_packet_types).
+Qed.
+Print Assumptions C09_kernel_header_bytes.
+
+Example C09_kernel_header_example :
+  HdrKernels.gen_PacketHeader_to_bytes 1 1000 65535 7 6 300 2 (2 ^ 31)
+  = Ok (map byte_of_Z [70; 83; 79; 67; 0; 0; 3; 232; 255; 255; 0; 7; 6; 1; 44; 2; 128; 0; 0; 0])
+  /\ HdrKernels.gen_PacketHeader_to_bytes 0 1000 65536 7 6 300 2 0 = Err EStruct.
+Proof. split; vm_compute; reflexivity. Qed.
